@@ -630,6 +630,9 @@ def columnStack (ixs : List IIndex) (newCommon : Option Int) : M IIndex := do
   let (es, total) ← ixs.foldlM (stackStep nc) ([], 0)
   pure { entries := es, common := nc, shape := [first.nrows, total] }
 
+/-- `numpy.setxor1d(a, b)` up to order: the values in exactly one of the two (only its length is used by `__eq__`) -/
+def setxor1d (a b : Rows) : Rows := (a.filter fun r => !b.contains r) ++ (b.filter fun r => !a.contains r)
+
 /-- `__eq__`: shape, common, number of entries, and each entry equal as a set
 (`len(setxor1d(rowids, other.get(coords, []))) == 0`) -/
 def eqIdx (a b : IIndex) : Bool :=
